@@ -434,7 +434,7 @@ func main() {
 	for a := range clocks {
 		alpha = append(alpha, ev{K: "tick", A: a})
 	}
-	r.SetRule(fmt.Sprintf("explicit-state BFS to depth %d over %d events on a real HopServer with authgrants enabled: AddAuthGrant(type in {shell, cmd a, cmd b, local-pf; thorough: + remote-pf, acme, the three non-exec types as first event only} x window in %v x (user,key) in 3 pairs), Login (grant path), Request(session, (cmd,pty) in 6 forms incl. trailing blank, empty, pty+cmd) through the gate startCodex applies (checkCmd), forward clock moves to 10 values around every window edge (thunks.TimeNow, installed for every call into the server); reference: an action starts iff a grant handed to that session at login is unused, matches type and exact command text, and start <= now < expiry, and is then consumed; grants leave the server at login. States deduplicated on (grant map, key set, sessions, clock, reference).", depth, len(alpha), winNames))
+	r.SetRule(fmt.Sprintf("explicit-state BFS to depth %d over %d events on a real HopServer with authgrants enabled: AddAuthGrant(type in {shell, cmd a, cmd b, local-pf; thorough: + remote-pf, acme, the three non-exec types as first event only, current window, first (user,key) pair} x window in %v x (user,key) in 3 pairs), Login (grant path), Request(session, (cmd,pty) in 6 forms incl. trailing blank, empty, pty+cmd) through the gate startCodex applies (checkCmd), forward clock moves to 10 values around every window edge (thunks.TimeNow, installed for every call into the server); reference: an action starts iff a grant handed to that session at login is unused, matches type and exact command text, and start <= now < expiry, and is then consumed; grants leave the server at login. States deduplicated on (grant map, key set, sessions, clock, reference).", depth, len(alpha), winNames))
 	b := &seqx.BFS[ev]{MaxDepth: depth, Workers: r.Workers, Expired: r.Expired,
 		Alphabet: func(path []ev) []ev {
 			// the clock only moves forward
@@ -449,10 +449,11 @@ func main() {
 				if e.K == "tick" && clocks[e.A] <= cur {
 					continue
 				}
-				// thorough tier (depth 5): grants of the non-exec types only as the first event,
-				// which keeps the state space within memory (they must precede the login anyway);
+				// thorough tier (depth 5): grants of the non-exec types only as the first event, with
+				// the current window and for the first (user,key) pair, which keeps the state space
+				// within memory (the first attempt without this bound passed 20 GB);
 				// the quick tier (depth 4) has local-pf grants at every position
-				if thoroughTier && e.K == "add" && e.A >= 3 && len(path) > 0 {
+				if thoroughTier && e.K == "add" && e.A >= 3 && (len(path) > 0 || e.B != 1 || e.C != 0) {
 					continue
 				}
 				a = append(a, e)
